@@ -136,6 +136,8 @@ def sites(prog, b):
             if "PoisonError" in recv_ty or "LockResult" in recv_ty:
                 continue
             out.append(("unwrap", c))
+        elif nm == "span" and "annotate_snippets" in (c.pretty or "") and len(c.args) == 2:
+            out.append(("snippet-span", c))
         elif nm in STR_MUTATORS and ("str" in (c.pretty or "") or "String" in (c.pretty or "")) and "core::str" in (c.pretty or "") + "alloc::string" * ("String" in (c.pretty or "")):
             out.append(("str-offset", c))
     for bb, t in b.terms():
@@ -174,6 +176,20 @@ def judge_site(prog, b, P, kind, c):
             ok = False
             why.append("range kind %s not handled" % knd)
         return ok, full, "; ".join(why)
+    if kind == "snippet-span":
+        # annotate_snippets slices the snippet source with this byte range when rendering
+        srcs = [x for x in b.calls() if x.name() == "source" and "annotate_snippets" in (x.pretty or "") and x.args]
+        rng = S.operand(c.args[1])
+        base = S.operand(srcs[0].args[0]) if srcs else ("unk", "no snippet source")
+        sig = "span(%s)[%s]" % (S.show(base), S.show(rng))
+        clo = var_closure(P, [base, rng])
+        full = sig + (" where " + clo if clo else "")
+        if rng[0] != "range" or rng[1] != "Range" or not srcs:
+            return False, full, "span is not a plain start..end range over a known source"
+        r1 = P.bd(base, rng[2], c.bb)
+        r2 = P.bd(base, rng[3], c.bb)
+        r3 = P.le(rng[2], rng[3], c.bb)
+        return r1 and r2 and r3, full, "start boundary=%s end boundary=%s ordered=%s" % (r1, r2, r3)
     if kind == "unwrap":
         x = S.operand(c.args[0])
         sig = "%s(%s)" % (c.name(), S.show(x))
